@@ -947,5 +947,223 @@ def pstepShared {ρ α : Type} (f : ρ → α) (req : Nat → ρ) (s : PState ρ
     | _ => s
   | op => pstep f req s op
 
+/-! ## 10. Decorated scripts: sloppy-mode globals, loops, shadowed helpers, per-VM state
+
+  PAC files in the wild are sloppy-mode ES5: they assign to names they never declared (`proxy = …`,
+  `for (i = 0; …)`), which creates properties of the global object that live as long as the VM does.
+  The decision trees of §7 are wrapped in such statements: a *prelude* run once when the script is
+  loaded, a *body* run at the start of every call, leaves that return through a global, and
+  top-level functions that replace a predefined helper.  A VM now has a state (`Globals`), so the
+  evaluation function of §9 becomes `σ → ρ → α × σ` and the pool machine carries one state per VM.
+
+  Forms whose meaning does not depend on that state (`with`, duplicate parameter names,
+  `arguments.callee`, aliasing of `arguments[i]`, `this` = global object in a plain call, legacy
+  octal literals, `FindProxyForURL.length`) are spellings of the constructs below on the JavaScript
+  side (harness/c14/deco.go); the model gives them the meaning of the construct they spell. -/
+
+abbrev Name := Nat                       -- the global `g<n>`
+abbrev Globals := List (Name × Val)      -- own properties of the global object the script created
+
+def gget (g : Globals) (x : Name) : Option Val := g.lookup x
+
+def gset (g : Globals) (x : Name) (v : Val) : Globals := (x, v) :: g.filter (fun p => p.1 != x)
+
+inductive GExpr where
+  | lit (v : Val)
+  | glob (x : Name)                      -- `gx` (a ReferenceError when it was never assigned)
+  | plus (x : Name) (k : Int)            -- `gx + k`
+  | call (c : Call)                      -- a helper call on url / host / literals
+  deriving Repr
+
+inductive Stmt where
+  | assign (x : Name) (e : GExpr)                     -- `gx = e;` (no `var`: creates or overwrites a global)
+  | initOnce (x : Name) (v : Val)                     -- `if (typeof gx === "undefined") gx = v;`
+  | loop (i : Name) (n : Nat) (x : Name) (e : GExpr)   -- `for (gi = 0; gi < n; gi++) { gx = e; }`
+  deriving Repr
+
+def Call.usesReq (c : Call) : Bool :=
+  c.args.any (fun a => match a with | .lit _ => false | _ => true)
+
+/-- `ctx` = the parameters `(url, host)` in scope; `none` at top level, where naming them is a
+    ReferenceError. -/
+def evalGExpr (hc : Helper → List Val → Res) (ctx : Option (Bytes × Bytes)) (g : Globals) : GExpr → Res
+  | .lit v => .ok v
+  | .glob x =>
+    match gget g x with
+    | some v => .ok v
+    | none => .throw
+  | .plus x k =>
+    match gget g x with
+    | some (.num n) => .ok (.num (n + k))
+    | some (.str s) => .ok (.str (s ++ intDec k))
+    | some _ => .unmodelled                           -- `+` on the other types is outside the fragment
+    | none => .throw
+  | .call c =>
+    match ctx with
+    | some (u, h) => evalCall hc u h c
+    | none => if c.usesReq then .throw else evalCall hc [] [] c
+
+/-- the globals after a statement (or at the point where it threw), and how it ended -/
+abbrev Exec := Globals × Out Unit
+
+/-- the loop as a bounded fold: `fuel` iterations left, counter value `k`; on exit the counter
+    holds the bound. -/
+def loopRun (hc : Helper → List Val → Res) (ctx : Option (Bytes × Bytes)) (i x : Name) (e : GExpr) :
+    Nat → Nat → Globals → Exec
+  | 0, k, g => (gset g i (.num (Int.ofNat k)), .ok ())
+  | fuel + 1, k, g =>
+    let g1 := gset g i (.num (Int.ofNat k))
+    match evalGExpr hc ctx g1 e with
+    | .ok v => loopRun hc ctx i x e fuel (k + 1) (gset g1 x v)
+    | .throw => (g1, .throw)
+    | .unmodelled => (g1, .unmodelled)
+
+def execStmt (hc : Helper → List Val → Res) (ctx : Option (Bytes × Bytes)) (g : Globals) : Stmt → Exec
+  | .assign x e =>
+    match evalGExpr hc ctx g e with
+    | .ok v => (gset g x v, .ok ())
+    | .throw => (g, .throw)
+    | .unmodelled => (g, .unmodelled)
+  | .initOnce x v =>
+    match gget g x with
+    | none => (gset g x v, .ok ())
+    | some .undef => (gset g x v, .ok ())
+    | some _ => (g, .ok ())
+  | .loop i n x e => if i = x then (g, .unmodelled) else loopRun hc ctx i x e n 0 g
+
+def execStmts (hc : Helper → List Val → Res) (ctx : Option (Bytes × Bytes)) : Globals → List Stmt → Exec
+  | g, [] => (g, .ok ())
+  | g, s :: rest =>
+    match execStmt hc ctx g s with
+    | (g', .ok ()) => execStmts hc ctx g' rest
+    | r => r
+
+inductive DTree where
+  | ret (e : RetE)
+  | retVia (x : Name) (e : RetE)          -- `gx = e; return gx;`
+  | retGlob (x : Name) (asStr : Bool)     -- `return gx;` / `return String(gx);`
+  | ite (c : Cond) (t e : DTree)
+  deriving Repr
+
+def evalDTree (hc : Helper → List Val → Res) (url host : Bytes) (g : Globals) : DTree → Res × Globals
+  | .ret e => (evalRet hc url host e, g)
+  | .retVia x e =>
+    match evalRet hc url host e with
+    | .ok v => (.ok v, gset g x v)
+    | r => (r, g)
+  | .retGlob x asStr =>
+    match gget g x with
+    | none => (.throw, g)
+    | some v => (.ok (if asStr then .str v.toStr else v), g)
+  | .ite c t e =>
+    match evalCond hc url host c with
+    | .ok true => evalDTree hc url host g t
+    | .ok false => evalDTree hc url host g e
+    | .throw => (.throw, g)
+    | .unmodelled => (.unmodelled, g)
+
+/-- a plain tree as a decorated one … -/
+def Tree.toD : Tree → DTree
+  | .ret e => .ret e
+  | .ite c t e => .ite c t.toD e.toD
+
+/-- … and with every leaf returning through the scratch global `gx` (`proxy = …; return proxy;`). -/
+def Tree.via (x : Name) : Tree → DTree
+  | .ret e => .retVia x e
+  | .ite c t e => .ite c (t.via x) (e.via x)
+
+structure DScript where
+  ex : Bool                               -- the entry point is called `FindProxyForURLEx`
+  shadow : List (Helper × Val)            -- `function <helper>() { return <v>; }` at top level
+  prelude : List Stmt                     -- top-level statements (run once per VM)
+  body : List Stmt                        -- first statements of the entry point (run on every call)
+  tree : DTree
+  deriving Repr
+
+/-- the script's own top-level function replaces the predefined helper of that name (one global
+    scope); `isInNet` and `isResolvable` call `dnsResolve` by name, so replacing that one changes
+    them too, which is outside the fragment. -/
+def shadowHc (sh : List (Helper × Val)) (hc : Helper → List Val → Res) : Helper → List Val → Res :=
+  fun h args =>
+    match sh.lookup h with
+    | some v => .ok v
+    | none =>
+      if (h == .isInNet || h == .isResolvable) && (sh.lookup Helper.dnsResolve).isSome then .unmodelled
+      else hc h args
+
+/-- loading: the prelude runs on a fresh global object -/
+def loadD (hc : Helper → List Val → Res) (s : DScript) : Exec :=
+  execStmts (shadowHc s.shadow hc) none [] s.prelude
+
+/-- one call on a VM whose globals are `g`: the answer and the globals it leaves behind -/
+def callD (hc : Helper → List Val → Res) (s : DScript) (g : Globals) (r : Req) : Answer × Globals :=
+  match execStmts (shadowHc s.shadow hc) (some (r.url, r.host)) g s.body with
+  | (g1, .ok ()) =>
+    let p := evalDTree (shadowHc s.shadow hc) r.url r.host g1 s.tree
+    (checkResult p.1, p.2)
+  | (g1, .throw) => (.errThrow, g1)
+  | (g1, .unmodelled) => (.unmodelled, g1)
+
+/-! ### A single resolver asked one request at a time, and the pool over VMs with state -/
+
+section Stateful
+variable {ρ α σ : Type}
+
+/-- state of one VM after the calls `rs`, in that order -/
+def seqState (f : σ → ρ → α × σ) (s0 : σ) (rs : List ρ) : σ := rs.foldl (fun st r => (f st r).2) s0
+
+/-- the answers a single resolver gives to `rs` asked one at a time -/
+def seqAnswers (f : σ → ρ → α × σ) : σ → List ρ → List α
+  | _, [] => []
+  | st, r :: rs => (f st r).1 :: seqAnswers f (f st r).2 rs
+
+/-- the answer to `q` of a single resolver that was asked `h` before -/
+def answerAfter (f : σ → ρ → α × σ) (s0 : σ) (h : List ρ) (q : ρ) : α := (f (seqState f s0 h) q).1
+
+def subseqs : List ρ → List (List ρ)
+  | [] => [[]]
+  | x :: xs => subseqs xs ++ (subseqs xs).map (x :: ·)
+
+/-- the answers to `q` that "a single resolver on some serialisation of earlier requests" can give:
+    the decidable form of the conclusion of `c14_pool_equals_single`. -/
+def possibleAnswers (f : σ → ρ → α × σ) (s0 : σ) (log : List ρ) (q : ρ) : List α :=
+  (subseqs log).map (fun h => answerAfter f s0 h q)
+
+/-- the pool machine of §9 over VMs with state: `vmst v` = state of VM `v` (a fresh VM is in the
+    state the script's prelude leaves), `hist v` = the requests it evaluated, `log` = all
+    evaluations in the order they happened (ghost). -/
+structure SState (ρ α σ : Type) where
+  base : PState ρ α
+  vmst : Nat → σ
+  hist : Nat → List ρ
+  log : List ρ
+
+def setAt {β : Type} (m : Nat → β) (v : Nat) (b : β) : Nat → β := fun x => if x = v then b else m x
+
+def SState.init (s0 : σ) : SState ρ α σ :=
+  { base := PState.init, vmst := fun _ => s0, hist := fun _ => [], log := [] }
+
+def sstep (f : σ → ρ → α × σ) (req : Nat → ρ) (s : SState ρ α σ) : POp → SState ρ α σ
+  | .finish c =>
+    match s.base.phase c with
+    | .begun v =>
+      match s.base.reg v with
+      | some r =>
+        { base := { s.base with phase := setPhase s.base.phase c (.finished v (some (f (s.vmst v) r).1)) }
+          vmst := setAt s.vmst v (f (s.vmst v) r).2
+          hist := setAt s.hist v (s.hist v ++ [r])
+          log := s.log ++ [r] }
+      | none => { s with base := { s.base with phase := setPhase s.base.phase c (.finished v none) } }
+    | _ => s
+  | .acquire c choice => { s with base := pstep (fun r => (f (s.vmst 0) r).1) req s.base (.acquire c choice) }
+  | .beginEval c => { s with base := pstep (fun r => (f (s.vmst 0) r).1) req s.base (.beginEval c) }
+  | .release c => { s with base := pstep (fun r => (f (s.vmst 0) r).1) req s.base (.release c) }
+  | .gc i => { s with base := pstep (fun r => (f (s.vmst 0) r).1) req s.base (.gc i) }
+
+def srun (f : σ → ρ → α × σ) (s0 : σ) (req : Nat → ρ) (ops : List POp) : SState ρ α σ :=
+  ops.foldl (sstep f req) (SState.init s0)
+
+end Stateful
+
 end C14
 end FwdVerif
